@@ -347,6 +347,8 @@ def mat(v):
         return iter([mat(x) for x in v[1]])  # a lazy, one-shot sequence without len()
     if t == "l":
         return [mat(x) for x in v[1]]
+    if t == "d":
+        return {k: mat(x) for k, x in v[1]}  # ["d", [[str key, value descriptor], ...]]: a dict item
     if t == "inf":
         return float("inf") if v[1] > 0 else float("-inf")
     if t == "x":
